@@ -74,7 +74,9 @@ def make_fault(rng, prog, cls, block):
         return rng.choice(["lda undefined_zz", "sta undefined_zz,x", ".word undefined_zz", ".byte <undefined_zz", "jmp undefined_zz", "lda #>undefined_zz",
                            # behind an operand that already decides the result
                            ".byte 0 && undefined_zz", "lda #(1 || undefined_zz)", ".byte (1 == 2) && (undefined_zz > 1)", ".word 5 || undefined_zz",
-                           ".if 0 && undefined_zz { nop }", ".if 1 || undefined_zz { nop }"]), "last"
+                           ".if 0 && undefined_zz { nop }", ".if 1 || undefined_zz { nop }",
+                           # only inside an interpolated string
+                           '.text "v{undefined_zz}"', '.text ascii "a{undefined_zz}b"', '.byte "x{undefined_zz}" == "x"']), "last"
     if cls == "undefined-macro":
         return "nosuchmacro_zz(1)", "last"
     if cls == "undefined-segment":
@@ -125,7 +127,8 @@ def make_fault(rng, prog, cls, block):
             return None, None
         return '.segment "late_zz" { .byte 1, 2, 3 }\n.define segment { name = "late_zz" start = $7000 }', "any"
     if cls == "malformed":
-        return rng.choice(["lda #", ".byte ,", "%%%", ")", "lda (", ".const = 5", ".if { nop }", "* = ", ".loop { nop }", "sta $10,", "lda #1 2", '.text "abc']), "last"
+        return rng.choice(["lda #", ".byte ,", "%%%", ")", "lda (", ".const = 5", ".if { nop }", "* = ", ".loop { nop }", "sta $10,", "lda #1 2", '.text "abc',
+                           ".byte", ".word", ".dword", ".byte // nothing", ".text", ".align", ".const x_zz =", "lda #1,"]), "last"
     if cls == "unclosed-block":
         return rng.choice(["{\nnop", "unc_zz: {\nnop", ".if 1 {\nnop", ".loop 2 {\nnop"]), "to-eof"
     raise ValueError(cls)
